@@ -6,23 +6,23 @@ NOTE = "trusted: Coq 8.16.1 kernel (coqc; coqchk in thorough), hand-written Gall
 TECH = "Coq proof (structural induction over proposition trees / lists + lia) with vm_compute correspondence against the implementation and a direct oracle for replays"
 P = {
  "C01": ("Coq theorems C01_encoding_agrees / C01_active / C01_inactive / C01_dense over the model of to_ge_polyhedron incl. the puan-rspy big-M row generation, for every tree, all integer bounds, every in-bounds assignment; model tied to /repo by exact comparison of columns, bounds and rows of to_ge_polyhedron(active) on generated validated models, plus a direct evaluation oracle", "6 (C01)"),
- "C02": ("Coq theorems C02_complete / C02_sound / C02_negate_safe (+ example that the solver-safe guard is needed) for every tree and every in-bounds integer point; correspondence as C01; oracle enumerates all integer points of small polyhedra", "6 (C02)"),
+ "C02": ("Coq theorems C02_complete / C02_sound / C02_sound_dense / C02_sound_validated (soundness of the polyhedron as handed out, from validation) / C02_columns_validated / C02_columns_distinct / C02_negate_safe / C02_negate_reestablishes / C02_constructors_keep_safe_form (+ example that the solver-safe guard is needed) for every tree and every in-bounds integer point; correspondence as C01 plus CorrSafe.check_safe; oracle enumerates all integer points of small polyhedra, samples false leaf assignments x all auxiliary 0/1 extensions of large ones", "6 (C02)"),
  "C03": ("Coq theorems C03_nodes / C03_top / C03_truth_function / C03_evaluate over the model of assume/flatten/evaluate_propositions/evaluate for every tree and total interpretation with overrides; correspondence on evaluate_propositions/evaluate outputs; oracle = independent arithmetic truth function", "6 (C03)"),
- "C04": ("Coq theorems on the truth functions of the constructors (All/Any/AtLeast/AtMost/Xor/XNor/Imply/Not, nested, JSON and rule-dictionary constructors) over boolean leaves; correspondence on constructor outputs; oracle exhaustive over small formulas x all 0/1 assignments", "6 (C04)"),
- "C05": ("Coq theorems C05_complement / C05_safe / C05_id over the model of AtLeast.negate for every tree, all integer bounds, every id generator; model tied to /repo by a structural correspondence check of negate() on generated validated models plus a direct complement oracle", "6 (C05)"),
+ "C04": ("Coq theorems C04_truth_functions / C04_truth_functions_every_formula (no side condition since fix D16) / C04_rule_dictionary on the truth functions of the constructors (All/Any/AtLeast/AtMost/Xor/XNor/Imply/Not, nested, JSON, list and rule-dictionary constructors) over boolean leaves; correspondence on constructor outputs; oracle exhaustive over small formulas x all 0/1 assignments, validated or not", "6 (C04)"),
+ "C05": ("Coq theorems C05_complement / C05_safe / C05_id / C05_not_compound / C05_not_atom over the model of AtLeast.negate and Not(...) for every tree, all integer bounds, every id generator; model tied to /repo by a structural correspondence check of negate() on generated validated models plus a direct complement oracle", "6 (C05)"),
  "C06": ("Coq theorems C06_sound / C06_assume_nodes / C06_tautology / C06_contradiction / C06_equation_bounds_exact for every tree, every partial/interval interpretation and every completion; correspondence on evaluate_propositions and the three flags; oracle = random completions + brute-force boxes", "6 (C06)"),
  "C07": ("Coq theorems C07_value / C07_evaluate / C07_bounds (assume then evaluate = evaluate on the union) for every tree, assumption and compatible further interpretation; correspondence on assume() output structure; oracle on fresh objects", "6 (C07)"),
- "C08": ("Coq theorems C08_sem / C08_clean over the model of reduce for every tree; correspondence on reduce() output structure (directly and after assume); oracle over interpretations of the free leaves", "6 (C08)"),
+ "C08": ("Coq theorems C08_sem / C08_clean / C08_after_assume (reduce(assume d p) means p under d) over the model of reduce for every tree; correspondence on reduce() output structure (directly and after assume); oracle over interpretations of the free leaves", "6 (C08)"),
  "C09": ("Coq theorems C09_frame / C09_pure_partial (+ C09_refuted: finding D2) over a label-threaded store model of the one mutable field, C09_cache for the configurator; correspondence on random histories; oracle compares every answer with a freshly built clone (known finding D2 classified)", "6 (C09)"),
- "C10": ("Coq theorems C10_sound_partial / C10_tree / C10_share (+ C10_sound_refuted: finding D4) over the model of errors(); correspondence on adversarial models; oracle = independent well-definedness checker", "6 (C10)"),
+ "C10": ("Coq theorems C10_sound_partial / C10_tree / C10_share / C10_flatten_distinct_ids / C10_one_validation_model (+ C10_sound_refuted: finding D4) over the model of errors(); correspondence on adversarial models; oracle = independent well-definedness checker", "6 (C10)"),
  "C11": ("Coq theorems on reducable_rows / reducable_columns_approx / reducable_rows_and_columns / reduce over the list-matrix model of ge_polyhedron: solution set preserved (projection, both inclusions); correspondence on every method; oracle = exact enumeration of small systems", "6 (C11)"),
  "C12": ("Coq theorems on tighten_column_bounds (sound, empty, no widening), row_bounds (exact, attained), n_row_combinations; correspondence + exact enumeration oracle", "6 (C12)"),
  "C13": ("Coq theorems on the model of ndint_compress (shadow: sign/zero, ties, order, strict dominance for unbounded Z; prio/rank/first/last/min/max) incl. the modelled puan-rspy bit allocation; correspondence on all methods x shapes x axes; independent-definition oracle", "6 (C13)"),
  "C14": ("Coq theorems C14_lex / C14_default_cost / structure of the default priority vector, derived from C13 dominance; correspondence on default_prios and the objective vectors seen by a recording solver; oracle over all pairs of feasible 0/1 points of small configurators", "6 (C14)"),
- "C15": ("Coq theorems C15_objective / C15_decode / C15_none / C15_exact (abstract exact solver, composed with C02_sound); correspondence on what a recording solver receives and on decoded dictionaries; brute-force exact solver oracle", "6 (C15)"),
- "C16": ("Coq theorems on to_json/from_json of every class (semantic round trip, leaves, explicit ids kept / generated ids not emitted, configurator defaults) (+ refutation for finding D6); correspondence on JSON documents and round-tripped structures; evaluation oracle", "6 (C16)"),
+ "C15": ("Coq theorems C15_objective / C15_decode / C15_none / C15_exact / C15_exact_puan / C15_exact_validated (abstract exact solver, composed with C02 soundness and C10); correspondence on what a recording solver receives and on decoded dictionaries; brute-force exact solver oracle", "6 (C15)"),
+ "C16": ("Coq theorems on to_json/from_json of every class (semantic round trip, leaves, explicit ids kept / generated ids not emitted, configurator defaults) (+ refutation for finding D6; C16_guards_hold: the merge guards hold for every document since fix D16); correspondence on JSON documents and round-tripped structures; evaluation oracle", "6 (C16)"),
  "C17": ("partial: Coq theorem on field packing/unpacking under an abstract codec hypothesis; the weight is carried by a differential structural/behavioural comparison before vs after from_b64(to_b64(.))", "6 (C17)"),
- "C18": ("Coq theorems C18_add / C18_direct / C18_seq / C18_reject over the model of StingyConfigurator construction and add; correspondence on structure, default priorities and polyhedron; oracle vs direct construction", "6 (C18)"),
+ "C18": ("Coq theorems C18_add / C18_seq / C18_reject / C18_add_every / C18_seq_every / C18_seq_refused (add()'s own guard decides every chain) over the model of StingyConfigurator construction and add; correspondence on structure, default priorities and polyhedron; oracle vs direct construction", "6 (C18)"),
  "C19": ("Coq theorems on ineqs_satisfied / separable / ineq_separate_points for ndim 1, 2, 3 by list induction; correspondence + brute-force oracle on random matrices and point arrays", "6 (C19)"),
  "C20": ("Coq theorems on construct / from_list / to_list / variable index partitions / A,b split; correspondence + oracle on random variable lists, dictionaries, dtypes", "6 (C20)"),
 }
